@@ -98,6 +98,18 @@ def run(ctx):
     for c in cases: c['texts'] = texts(c)
     impl = core.run_lines(core.VH, ['project ' + ' '.join(core.hexs(t) if t else '-' for t in c['texts']) for c in cases], jobs=12)
     model = core.run_lines(core.PLCDRV, [enc(c) for c in cases], jobs=12) if ctx.model_available else [None] * len(cases)
+    # the same sets reached through an edit history of the project (analyse, change one document, analyse again):
+    # the result must be the one of the fresh project (a cached parse or verdict must not survive the edit)
+    hx = lambda t: core.hexs(t) if t else '-'
+    def edit_req(c):
+        j = rng.randrange(len(c['texts']))
+        stub = rng.choice(['', 'TYPE\nN7900 : INT(1..2);\nEND_TYPE\n', c['texts'][j]])
+        init = [stub if k == j else t for k, t in enumerate(c['texts'])]
+        edits = [f"{j}:{hx(c['texts'][j])}"]
+        if rng.random() < 0.3: edits = [f"{j}:{hx(BAD_TEXTS['syntax'])}"] + edits
+        return 'projedit ' + ' '.join(hx(t) for t in init) + ' | ' + ' '.join(edits)
+    edit_reqs = [edit_req(c) for c in cases]
+    edited = core.run_lines(core.VH, edit_reqs, jobs=12)
     # the CLI on a sample of the same cases
     sample_idx = [i for i in range(len(cases)) if i % (7 if ctx.quick() else 5) == 0]
     import concurrent.futures as cf
@@ -132,6 +144,12 @@ def run(ctx):
             ctx.violations.append({'stream': 'project', 'case': show, 'impl': io, 'model': mo,
                                    'what': f'adding valid files to a set failing with {sorted(prev[1])} makes the check pass'})
         prev = (status, codes)
+        ctx.evaluations += 1
+        ctx.count('edit-history')
+        if edited[i] != io:
+            ctx.violations.append({'stream': 'edit', 'case': dict(show, request=edit_reqs[i][:4000]), 'impl': edited[i][:300], 'model': io[:300],
+                                   'what': 'after an edit of one document the project reports something else than a fresh project holding the same texts '
+                                           + ('(the fault is masked)' if edited[i].startswith('OK') else '')})
         if i in cli_res:
             r = cli_res[i]
             ctx.count('cli-runs')
